@@ -323,9 +323,12 @@ def serialize_to_xml(elements: Iterable[Any],
             ck = etree_module.tostring(elem, encoding='utf-8', method=method)
             chunks.append(ck.decode('utf-8'))
         else:
-            if cks and cks[0].startswith(b'<?'):
-                cks[0] = cks[0].replace(b'\'', b'"')
-            chunks.append(b''.join(cks).decode('utf-8'))  # chunks are pieces of the output, not lines
+            data = b''.join(cks)  # chunks are pieces of the output, not lines
+            if data.startswith(b'<?'):
+                # only the quotes of the XML declaration are normalized, not those in the content
+                end = data.index(b'?>')
+                data = data[:end].replace(b'\'', b'"') + data[end:]
+            chunks.append(data.decode('utf-8'))
 
     if not character_map:
         return (item_separator or '').join(chunks)
